@@ -96,6 +96,157 @@ def binary_jobs():
     return jobs
 
 
+LAYOUTS = ["C", "F", "T", "view", "rev", "Fcols"]
+DTYPES = ["int8", "uint8", "int16", "uint16", "int32", "uint32", "int64", "uint64", "float32", "float64"]
+IMAX = {"int8": 127, "uint8": 255, "int16": 32767, "uint16": 65535, "int32": 2 ** 31 - 1, "uint32": 2 ** 32 - 1,
+        "int64": 2 ** 63 - 1, "uint64": 2 ** 64 - 1}
+
+
+def combos(rng):
+    """endless seeded walk through the dtype x layout matrix, every combination equally often"""
+    while True:
+        cs = [(d, lo) for d in DTYPES for lo in LAYOUTS]
+        rng.shuffle(cs)
+        for c in cs:
+            yield c
+
+
+def grid_shape(n, rng):
+    """a 2-D shape with both extents > 1 when n allows it (layouts only matter then)"""
+    opts = [(h, n // h) for h in range(2, n) if n % h == 0 and n // h > 1]
+    return list(rng.choice(opts)) if opts else [1, n]
+
+
+def matrix_jobs(rng, n_bin, n_cls):
+    """Input-variation matrix: every classifier x raster dtype x memory layout on a seeded sample of every family.
+    The expected classes do not depend on dtype or layout - the definitions work on values."""
+    jobs = []
+    cs = combos(rng)
+    allbins = list(bin_lists(6, 5))
+    for _ in range(n_bin):                                   # reclassify / _cpu_bin
+        dtype, layout = next(cs)
+        b = rng.choice(allbins)
+        isf = dtype.startswith("float")
+        pos = list(range(-1, 13)) + [NAN, PINF] if isf else list(range(0 if dtype[0] == "u" else -2, 13, 2)) * 2
+        while len(pos) % 4:
+            pos.append(pos[0])
+        rng.shuffle(pos)
+        jobs.append({"kind": "bin", "bins": b, "vals2": pos, "dtype": dtype, "layout": layout,
+                     "shape": [4, len(pos) // 4], "bins_float": rng.random() < 0.5, "trace": False,
+                     "tag": "matrix_bin_%s_%s" % (dtype, layout)})
+    for q in range(n_cls):                                   # binary + the three data-driven classifiers
+        dtype, layout = next(cs)
+        isf = dtype.startswith("float")
+        H, W = rng.choice([(2, 4), (3, 3), (2, 5), (4, 2), (3, 4)])
+        hi = rng.choice([3, 6, 12])
+        vals = [rng.randrange(0, hi + 1) for _ in range(H * W)]
+        if isf:
+            for i in range(H * W):
+                if rng.random() < 0.1:
+                    vals[i] = rng.choice([NAN, PINF, NINF])
+        fin = [v for v in vals if v >= 0]
+        while len(fin) > 10:                                  # natural_breaks: <= 10 finite values (32-bit SSD)
+            H, W = 2, 5
+            vals = vals[:10]
+            fin = [v for v in vals if v >= 0]
+        if len(set(fin)) < 2:
+            vals[0], vals[1] = 0, hi
+        off, unit = (0, 1)
+        if dtype in ("int8", "int16", "int32", "int64") and rng.random() < 0.5:
+            off, unit = -5, 1
+        elif not isf and rng.random() < 0.3:
+            off, unit = 3, 2
+        base = {"shape": [H, W], "dtype": dtype, "layout": layout, "off": off, "unit": unit, "vals": vals}
+        for func in ("natural_breaks", "quantile", "equal_interval"):
+            jobs.append(dict(base, kind="classes", func=func, k=rng.choice([2, 3, 4, 5]),
+                             tag="matrix_%s_%s_%s" % (func, dtype, layout)))
+        pool = sorted(set(v for v in vals if v >= 0))
+        jobs.append(dict(base, kind="binary", list=rng.sample(pool, min(len(pool), rng.choice([1, 2, 3]))),
+                         tag="matrix_binary_%s_%s" % (dtype, layout)))
+    return jobs
+
+
+def special_jobs(rng, reps):
+    """Values at the edges of the raster dtype."""
+    jobs = []
+    cs = combos(rng)
+    # ---- binary: listed values that are NOT representable in the raster dtype, next to cells holding exactly what
+    #      a cast of them would produce.  Codes >= 1000 are listed values equal to no cell.
+    unrep = [
+        ("int32", [1, -1, 2, -2, 0, 1, -1, 3], [1.5, -1.5, 2.9], [1000, 1001, 1002]),
+        ("int8", [44, 127, -128, 0, 1, -1, 44, 100], [300, 128, -129, 1.5], [1000, 1001, 1002, 1003]),
+        ("uint8", [44, 255, 0, 1, 254, 44, 2, 3], [300, -1, 256, -256, 0.5], [1000, 1001, 1002, 1003, 1004]),
+        ("uint16", [65535, 0, 1, 464, 65534, 2, 3, 4], [-1, 65536, 66000, 1.5], [1000, 1001, 1002, 1003]),
+        ("uint32", [4294967295, 0, 1, 2, 3, 4, 5, 6], [-1, 4294967296, 2.5], [1000, 1001, 1002]),
+        ("uint64", [0, 1, 2, 3, 2 ** 53, 5, 6, 7], [-1, -2, 1.5], [1000, 1001, 1002]),
+        ("int64", [2 ** 53, 2 ** 53 + 1, 2 ** 53 + 2, -2 ** 53 - 1, 0, 1, 2 ** 62, 2 ** 62 + 1], [1.5], [1000]),
+        ("float32", [16777216.0, 16777218.0, 0.5, 1.0, 0.0, 2.0, 16777216.0, 3.0], [16777217, 0.1, 1e-46],
+         [1000, 1001, 1002]),
+        ("float64", [0.1, 0.3, 1.0, 2.0, 0.0, 3.0, 4.0, 5.0], [0.1 + 0.2, 1 + 1e-16 + 3e-16], [1000, 1001]),
+    ]
+    for dtype, cells, extra_real, extra_codes in unrep:
+        for _ in range(reps):
+            _, layout = next(cs)
+            table = sorted(set(cells))
+            vals = [table.index(v) for v in cells]
+            k = rng.randrange(0, 3)
+            listed = rng.sample(range(len(table)), k)
+            lst_real = [table[c] for c in listed] + list(extra_real)
+            if any(isinstance(v, float) for v in lst_real) and any(isinstance(v, int) and abs(v) > 2 ** 53 for v in lst_real):
+                lst_real, listed = list(extra_real), []       # a python list mixing floats and huge ints loses the ints
+            order = list(range(len(lst_real)))
+            rng.shuffle(order)
+            codes = listed + list(extra_codes)
+            jobs.append({"kind": "binary", "vals": vals, "table": table, "shape": [2, 4], "dtype": dtype,
+                         "layout": layout, "list": [codes[i] for i in order], "list_real": [lst_real[i] for i in order],
+                         "tag": "binary_unrepresentable_%s" % dtype})
+    # exact 64-bit integers beyond 2^53 (equality only: binary)
+    for dtype, cells in (("int64", [2 ** 53, 2 ** 53 + 1, 2 ** 53 + 2, 2 ** 62, 2 ** 62 + 1, -2 ** 62 - 1, 0, 7]),
+                         ("uint64", [2 ** 64 - 1, 2 ** 64 - 2, 2 ** 63, 2 ** 63 + 1, 0, 1, 2 ** 53 + 1, 2 ** 53])):
+        for _ in range(reps):
+            _, layout = next(cs)
+            table = sorted(set(cells))
+            vals = [table.index(v) for v in cells]
+            # uint64: only values >= 2^63 are listed, so that numpy types the list uint64 (a list mixing them with
+            # small ints becomes float64, and numba compares int64 with uint64 in float64: outside exactness)
+            cand = [c for c in range(len(table)) if dtype == "int64" or table[c] >= 2 ** 63]
+            listed = rng.sample(cand, rng.choice([1, 2, 3]))
+            jobs.append({"kind": "binary", "vals": vals, "table": table, "shape": [4, 2], "dtype": dtype,
+                         "layout": layout, "list": listed, "tag": "binary_64bit_%s" % dtype})
+    # ---- reclassify: fractional bins on integer rasters (real bin = b/2, odd b; real value = v2/4)
+    allbins = [b for b in bin_lists(5, 7) if any(x % 2 for x in b)]
+    for dtype in ("int8", "uint8", "int16", "uint16", "int32", "uint32", "int64", "uint64"):
+        for _ in range(reps):
+            _, layout = next(cs)
+            b = rng.choice(allbins)
+            pos = [v for v in range(-4 if dtype[0] == "i" else 0, 20, 4)] * 2
+            while len(pos) % 4:
+                pos.append(pos[0])
+            rng.shuffle(pos)
+            jobs.append({"kind": "bin", "bins": b, "vals2": pos, "s": 0.5, "dtype": dtype, "layout": layout,
+                         "shape": [4, len(pos) // 4], "trace": False, "tag": "fractional_bins_%s" % dtype})
+    # ---- data-driven classifiers on wide integer rasters: 0 / dtype min .. dtype max, values on both sides of the
+    #      median; and integers beyond 2^24 (up to 2^53: what float64 break values can hold exactly)
+    wide = [("uint8", 0, 51, 5), ("uint16", 0, 13107, 5), ("uint32", 0, 858993459, 5), ("uint64", 0, 2 ** 50, 8),
+            ("int8", -128, 51, 5), ("int16", -32768, 13107, 5), ("int32", -2 ** 31, 858993459, 5),
+            ("int64", -2 ** 52, 2 ** 50, 8), ("int64", 2 ** 24 + 1, 1, 12), ("int64", 2 ** 40 + 1, 3, 12),
+            ("uint32", 2 ** 24 + 1, 1, 12), ("float64", float(2 ** 24 + 1), 1.0, 12), ("float64", float(2 ** 40), 0.5, 12)]
+    for dtype, off, unit, hi in wide:
+        for _ in range(reps):
+            _, layout = next(cs)
+            H, W = rng.choice([(2, 4), (3, 3), (2, 5)])
+            vals = [rng.randrange(0, hi + 1) for _ in range(H * W)]
+            vals[rng.randrange(H * W)] = 0
+            vals[rng.randrange(1, H * W)] = hi
+            if vals[0] == hi and len(set(vals)) < 2:
+                vals[0] = 0
+            for func in ("natural_breaks", "quantile", "equal_interval"):
+                jobs.append({"kind": "classes", "func": func, "k": rng.choice([2, 3, 4]), "vals": vals,
+                             "shape": [H, W], "dtype": dtype, "layout": layout, "off": off, "unit": unit,
+                             "tag": "wide_%s_%s" % (func, dtype)})
+    return jobs
+
+
 UNREP = [(0.0, 0.1), (16777216.0, 1.0), (0.3, 0.7), (1.0e9, 3.0), (-0.05, 0.01)]
 
 
@@ -206,10 +357,12 @@ class Tally:
 def describe(case):
     j = case["job"]
     if case["kind"] == "bin":
-        return "bins=%s dtype=%s idx=%s recl=%s" % (case["bins"], j.get("dtype"), case.get("idx"), case.get("recl"))
-    return "%s %s k=%s dtype=%s off=%s unit=%s vals=%s out=%s" % (
-        case.get("tag"), case.get("func", "binary"), case.get("k", case.get("list")), j.get("dtype"), j.get("off"),
-        j.get("unit"), case["vals"], case.get("out"))
+        return "%s bins=%s s=%s dtype=%s layout=%s vals2=%s idx=%s recl=%s" % (
+            case.get("tag"), case["bins"], j.get("s", 1), j.get("dtype"), j.get("layout"), case.get("vals2"),
+            case.get("idx"), case.get("recl"))
+    return "%s %s k=%s dtype=%s layout=%s off=%s unit=%s vals=%s list_real=%s out=%s" % (
+        case.get("tag"), case.get("func", "binary"), case.get("k", case.get("list")), j.get("dtype"), j.get("layout"),
+        j.get("off"), j.get("unit"), case["vals"], j.get("list_real"), case.get("out"))
 
 
 def judge(ctx, cases, name, tally, parallel=4):
@@ -292,6 +445,7 @@ def run(ctx):
     nmax, vmax = (7, 6) if thorough else (6, 4)
     jms = multiset_jobs(rng, nmax, vmax)
     jrnd = random_jobs(rng, ctx.pick(1200, 12000))
+    jrnd += matrix_jobs(rng, ctx.pick(120, 1200), ctx.pick(120, 1200)) + special_jobs(rng, ctx.pick(2, 20))
     # each worker process pays ~5 CPU-s import + JIT: few processes in the quick tier
     allc = core.run_jobs("classify_worker", jb + jbin + jms + jrnd, nproc=ctx.pick(4, 16))
     compiled = allc[:len(jb)]
@@ -337,9 +491,11 @@ def run(ctx):
     # ------------------------------------------------------------------ T: seeded rasters
     judge(ctx, [c for c in crnd if c["kind"] == "classes"], "random_classes", tally, parallel=ctx.pick(2, 8))
     judge(ctx, [c for c in crnd if c["kind"] == "binary"], "random_binary", tally, parallel=1)
+    judge(ctx, [c for c in crnd if c["kind"] == "bin"], "matrix_bins", tally, parallel=1)
     for c in crnd:
         if "error" not in c and c["kind"] == "classes":
-            ctx.nontrivial((c["func"], c["k"], tuple(c["vals"]), c["job"]["dtype"], c["job"]["off"], c["job"]["unit"]))
+            ctx.nontrivial((c["func"], c["k"], tuple(c["vals"]), c["job"]["dtype"], c["job"].get("layout"),
+                            c["job"].get("off"), c["job"].get("unit")))
     for c in [c for c in crnd if c["kind"] == "classes"][:2]:
         ctx.sample({"kind": "random", "func": c.get("func"), "k": c.get("k"), "dtype": c["job"]["dtype"],
                     "off": c["job"]["off"], "unit": c["job"]["unit"], "vals": c.get("vals"), "out": c.get("out")})
